@@ -750,6 +750,36 @@ fn main() {
         },
     );
 
+    // ------------------------------------------------------------------------------------- A
+    // "arithmetic ... renders to the value the documentation assigns to it": integers are 128-bit,
+    // so the sum, difference and product of two 64-bit operands is always exact. Operands at the
+    // 64-bit seam (C13 owns the full numeric alphabet; this is the expression-level spot check that
+    // an i64 fast path in `+ - *` cannot hide from - seeded change C02-7).
+    let seam: Vec<i64> = vec![i64::MAX, i64::MAX - 1, i64::MIN + 1, 1 << 32, (1 << 31) - 1, 3_037_000_500, -3_037_000_500, 1, -1, 2, 0];
+    run.family(
+        Family::new("A", seam.len() as u64, &format!("all ordered pairs of {} integers at the 64-bit seam through + - *, operands as literals and as context values: the exact 128-bit result", seam.len())),
+        |item, acc: &mut Acc| {
+            let a = seam[item as usize];
+            let lit = |x: i64| if x < 0 { format!("(-{})", x.unsigned_abs()) } else { x.to_string() };
+            for &b in &seam {
+                for (op, want) in [("+", (a as i128) + (b as i128)), ("-", (a as i128) - (b as i128)), ("*", (a as i128) * (b as i128))] {
+                    let ctx = mccore::vals::context(&[("a", &V::I64(a)), ("b", &V::I64(b))]);
+                    for src in [format!("{{{{ {} {op} {} }}}}", lit(a), lit(b)), format!("{{{{ a {op} b }}}}"), format!("{{{{ a {op} {} }}}}", lit(b))] {
+                        let out = engine::render_str(&tera, &src, &ctx, false);
+                        if out.ok() != Some(want.to_string().as_str()) {
+                            acc.violation(
+                                format!("A:wrong-value:{op}"),
+                                format!("`{src}` with a={a}, b={b} renders {}, the exact result is {want}", out.show()),
+                                || json!({"template": src, "a": a, "b": b, "expected": want.to_string()}),
+                            );
+                        }
+                        acc.case(want > i64::MAX as i128 || want < i64::MIN as i128, out.class());
+                    }
+                }
+            }
+        },
+    );
+
     // ------------------------------------------------------------------------------------- D
     let doti = fam::doti_cases();
     run.family(Family::new("D", 1, "`.i` indexing of arrays: 5 programs"), |_item, acc: &mut Acc| {
